@@ -188,6 +188,21 @@ def run_case(ctx, data, cuts, conts, rseed, use_ctor=False):
                   lambda: {'got': [m.hex() for m in got][:10], 'want': [m.hex() for m in ref][:10]})
         ctx.check('get_message None iff none pending', parser.get_message() is None
                   and parser.pending() == 0, 'not-empty-after-drain', case, None)
+        if len(data) <= 64:
+            # the consumer edits what it retrieved; the same bytes parsed again give the same messages
+            for m in got:
+                try:
+                    m.time = 31337
+                    for k in vars(m):
+                        if k in midi1.DOMAIN:
+                            setattr(m, k, midi1.DOMAIN[k][1] if getattr(m, k) != midi1.DOMAIN[k][1] else midi1.DOMAIN[k][0])
+                        elif k == 'data':
+                            m.data = (0x55,)
+                except Exception:
+                    pass
+            again = Parser()
+            again.feed(bytes(data))
+            ctx.check('final sequence == reference', list(again) == ref, 'stale-or-shared-after-consumer-edits', case, None)
     except Exception as exc:
         ctx.fail('no exception', f'{type(exc).__name__}', case, f'{type(exc).__name__}: {exc}')
         return False
@@ -254,6 +269,52 @@ def run_tokenizer_case(ctx, data, cuts, rseed):
                   lambda: {'got': got[:6], 'want': want[:6]})
     except Exception as exc:
         ctx.fail('no exception', f'tokenizer:{type(exc).__name__}', case, f'{type(exc).__name__}: {exc}')
+
+
+def aborted_feed_case(ctx, data, at, how, other):
+    """A feed() call that fails half way - the data source raises, or an item is not a MIDI byte - and
+    the calls that follow it: nothing already consumed is lost or handed to another parser, and the
+    parser goes on where the source stopped."""
+    class Hiccup(OSError):
+        pass
+    case = lambda: {'kind': 'aborted-feed', 'bytes': bytes(data), 'at': at, 'how': how, 'other': bytes(other)}  # noqa: E731
+    _, ref = reference(data)
+    _, ref_other = reference(other)
+    bad_item = {'source-raises': None, 'item-300': 300, 'item-none': None, 'item-neg': -1, 'item-float': 60.5}[how]
+
+    def source():
+        for i, b in enumerate(data):
+            if i == at:
+                if how == 'source-raises':
+                    raise Hiccup('device read failed')
+                yield bad_item
+            yield b
+    try:
+        a, b = Parser(), Parser()
+        try:
+            a.feed(source() if how == 'source-raises' else list(source())[:at + 1])
+            ctx.check('no exception', at >= len(data), 'aborted-feed:no-error-raised', case, None)
+        except (Hiccup, ValueError, TypeError):
+            pass
+        # an unrelated parser is used in between
+        b.feed(bytes(other))
+        got_b = list(b)
+        a.feed(bytes(data[at:]))
+        got_a = list(a)
+        if how == 'source-raises':
+            ok = got_a == ref           # nothing but valid bytes, in two calls: plain chunking
+        else:
+            # an item that is no MIDI byte was refused in the middle: what was complete before it is delivered;
+            # whether the message under construction survives the refusal is not promised
+            _, pre = reference(data[:at])
+            _, post = reference(data[at:])
+            ok = got_a == ref or got_a == pre + post
+        ctx.check('final sequence == reference', ok and a.pending() == 0, f'aborted-feed:{how}', case,
+                  lambda: {'got': [m.hex() for m in got_a][:8], 'want': [m.hex() for m in ref][:8]})
+        ctx.check('final sequence == reference', got_b == ref_other, f'aborted-feed:other-parser:{how}', case,
+                  lambda: {'got': [m.hex() for m in got_b][:8], 'want': [m.hex() for m in ref_other][:8]})
+    except Exception as exc:
+        ctx.fail('no exception', f'aborted-feed:{how}:{type(exc).__name__}', case, f'{type(exc).__name__}: {exc}')
 
 
 def checkpoint_case(ctx, data, cut, how):
@@ -359,6 +420,10 @@ def run(ctx):
         for cut in range(0, len(data) + 1, 2):
             checkpoint_case(ctx, data, cut, ('deepcopy', 'pickle')[(si + cut) % 2])
             n += 1
+        hows = ('source-raises', 'item-300', 'item-none', 'item-neg', 'item-float')
+        for at in range(0, len(data) + 1):
+            aborted_feed_case(ctx, data, at, hows[(si + at) % len(hows)], streams[(si + 1) % len(streams)])
+            n += 1
     ctx.extra('short_streams_all_cuts', len(streams))
     # longer streams, random chunkings
     nl = 300 if ctx.tier == 'quick' else 20000
@@ -433,6 +498,8 @@ def replay(ctx, case):
                  case['rseed'], case.get('ctor', False))
     elif case['kind'] == 'queue':
         run_queue_case(ctx, list(case['bytes']), tuple(case['cuts']), case['rseed'])
+    elif case['kind'] == 'aborted-feed':
+        aborted_feed_case(ctx, list(case['bytes']), case['at'], case['how'], list(case['other']))
     elif case['kind'] == 'tokenizer':
         run_tokenizer_case(ctx, list(case['bytes']), tuple(case['cuts']), case['rseed'])
     else:
